@@ -5,7 +5,7 @@
 # work/seed-results.tsv; tools/gen_seed_meta.py merges them into seeded/results.tsv.
 set -u
 G="${1:-*}"
-declare -A EXTRA=( [C02-r2m1]="C07" [C04-r2m3]="C07" [C01-r3m1]="C07 C02" [C01-r3m3]="C07 C02" [C11-r4m3]="C07" [C20-r4m2]="C07" )
+declare -A EXTRA=( [C02-r2m1]="C07" [C11-r6m3]="C07" [C20-r6m3]="C07" [C04-r2m3]="C07" [C01-r3m1]="C07 C02" [C01-r3m3]="C07 C02" [C11-r4m3]="C07" [C20-r4m2]="C07" )
 for d in /verif/seeded/$G/; do
   n=$(basename "$d")
   [ -f "$d/patch.diff" ] || continue
